@@ -2267,18 +2267,30 @@ class VM:
             return s * count
 
         def startsWith(*args):
+            if args and isinstance(args[0], JSRegExp):
+                raise JSTypeError(
+                    "First argument to String.prototype.startsWith must not be a regular expression"
+                )
             search = to_string(args[0]) if args else "undefined"
             pos = to_integer(args[1]) if len(args) > 1 else 0
             pos = min(max(pos, 0), len(s))  # clamped, not relative to the end
             return s[pos:].startswith(search)
 
         def endsWith(*args):
+            if args and isinstance(args[0], JSRegExp):
+                raise JSTypeError(
+                    "First argument to String.prototype.endsWith must not be a regular expression"
+                )
             search = to_string(args[0]) if args else "undefined"
             length = to_integer(args[1], len(s)) if len(args) > 1 else len(s)
             length = min(max(length, 0), len(s))  # clamped, not relative to the end
             return s[:length].endswith(search)
 
         def includes(*args):
+            if args and isinstance(args[0], JSRegExp):
+                raise JSTypeError(
+                    "First argument to String.prototype.includes must not be a regular expression"
+                )
             search = to_string(args[0]) if args else "undefined"
             pos = to_integer(args[1]) if len(args) > 1 else 0
             pos = min(max(pos, 0), len(s))  # clamped, not relative to the end
